@@ -72,3 +72,80 @@ def cvc5_check(smt2_text, timeout_s=10, want_model=True):
     finally:
         os.unlink(path)
     return r, time.time() - t0
+
+
+# ---------------------------------------------------------------------------------------------
+# Independent confirmation of `unsat`.
+#
+# z3 5.1.0 (the z3-solver wheel) was observed to answer `unsat` on a SATISFIABLE query of this engine
+# (quantified axioms over sequences and arrays; `sat` with a validated model under one random seed,
+# `unsat` under others -- DESIGN.md section 7).  An `unsat` from it is therefore only believed for
+# quantifier-free queries.  A query with quantifiers (or lambdas) must be confirmed `unsat` by an
+# independent solver: the system z3 4.8.12 (/usr/bin/z3, a different code base version) or cvc5.
+
+OLD_Z3 = "/usr/bin/z3"
+_quant_cache = {}
+
+
+def has_quantifier(f):
+    import z3
+
+    work, seen = [f], set()
+    while work:
+        x = work.pop()
+        i = x.get_id()
+        if i in seen:
+            continue
+        seen.add(i)
+        if i in _quant_cache:
+            if _quant_cache[i]:
+                return True
+            continue
+        if z3.is_quantifier(x):
+            _quant_cache[f.get_id()] = True
+            return True
+        if z3.is_app(x):
+            work.extend(x.children())
+    _quant_cache[f.get_id()] = False
+    return False
+
+
+def any_quantifier(formulas):
+    return any(has_quantifier(f) for f in formulas)
+
+
+def old_z3_check(smt2_text, timeout_s=20):
+    """('sat'|'unsat'|'unknown', secs) from the system z3 4.8.12"""
+    if not os.path.exists(OLD_Z3):
+        return "unknown", 0.0
+    text = re.sub(r"\(set-info [^\n]*\)\n", "", smt2_text)
+    if "(check-sat)" not in text:
+        text += "\n(check-sat)\n"
+    t0 = time.time()
+    with tempfile.NamedTemporaryFile("w", suffix=".smt2", delete=False) as f:
+        f.write(text)
+        path = f.name
+    try:
+        p = subprocess.run([OLD_Z3, f"-T:{int(timeout_s)}", path], capture_output=True, text=True, timeout=timeout_s + 10)
+        out = p.stdout.strip().splitlines()
+        r = out[0].strip() if out else "unknown"
+        if r not in ("sat", "unsat"):
+            r = "unknown"
+    except subprocess.TimeoutExpired:
+        r = "unknown"
+    finally:
+        os.unlink(path)
+    return r, time.time() - t0
+
+
+def confirm_unsat(smt2_text, budget_s=30):
+    """-> (confirmed: bool, by: str, disagreement: bool)"""
+    r, _ = old_z3_check(smt2_text, timeout_s=budget_s)
+    if r == "unsat":
+        return True, "z3-4.8.12", False
+    if r == "sat":
+        return False, "z3-4.8.12", True
+    r2, _ = cvc5_check(smt2_text, timeout_s=budget_s, want_model=False)
+    if r2 == "unsat":
+        return True, "cvc5", False
+    return False, "none", r2 == "sat"
